@@ -548,11 +548,15 @@ func runBehaviour(t *testing.T, b behaviour, tr *vtrace.Tracer, seed int64, tmp 
 				alts := []string{"{}", "null", `{"ID":"i1","FetchTime":"2000-01-01T00:00:00Z"}`, `{"ID":"i1","FetchTime":"2000-01-01T00:00:00Z","Policy":null}`}
 				data = []byte(alts[e.rng.Intn(len(alts))])
 			} else {
-				switch e.rng.Intn(5) {
+				v := e.rng.Intn(5)
+				if len(old) < 8 && v >= 3 {
+					v = e.rng.Intn(3) // nothing left to tear
+				}
+				switch v {
 				case 0:
 					data = []byte{}
 				case 1:
-					data = make([]byte, len(old)) // a block of NULs, as after an unclean shutdown
+					data = make([]byte, len(old)+1) // a block of NULs, as after an unclean shutdown
 				case 2:
 					data = []byte("\x7fELF garbage")
 				default:
